@@ -543,7 +543,7 @@ Qed.
 Lemma parse_dev_nil : parse_dev [] = None.
 Proof. reflexivity. Qed.
 
-Global Opaque parse_mod chmod_ref perm_is_chmod simple_mode parse_uid parse_dev parse_source id_status.
+Local Opaque parse_mod chmod_ref perm_is_chmod simple_mode parse_uid parse_dev parse_source id_status.
 
 (* ------------------------------------------------------------------ wildcard flag of the name *)
 Lemma proc_option_wild e ty key val e' :
@@ -985,7 +985,7 @@ Proof. reflexivity. Qed.
 Lemma lof_bad_type ty rest : type_of ty = None ->
   exists a e, line_of_fields (ty :: rest) = LRes a false e.
 Proof.
-  intros Ht. unfold line_of_fields. cbn [nth]. rewrite Ht.
+  intros Ht. unfold line_of_fields. change (nth 0 (ty :: rest) []) with ty. rewrite Ht.
   destruct (name_step entry0 (nth 1 (ty :: rest) [])) as [e2 b2]. cbn [orb].
   pose proof (fold_bad ty (skipn 2 (ty :: rest)) e2) as Hb.
   destruct (fold_left (opt_step ty) (skipn 2 (ty :: rest)) (e2, true)) as [e3 b3].
@@ -1014,7 +1014,7 @@ Proof.
     + destruct k as [|c k]; [injection E as _ E; discriminate E|].
       destruct (proc_option e ty (c :: k) v) as [e'|] eqn:Ep; [|injection E as _ E; discriminate E].
       injection E as _ ->. split; [reflexivity|]. constructor; [|exact HF].
-      exists (c :: k), v. split; [reflexivity|]. eapply table_agrees_rev; eauto.
+      exists (c :: k), v. split; [exact Es|]. eapply table_agrees_rev; eauto.
     + destruct k; injection E as _ E; discriminate E.
 Qed.
 
@@ -1044,13 +1044,13 @@ Proof.
   - now apply (IH false).
 Qed.
 
-Lemma inv_init tc ty ts : forallb StageDoc.tok_ok ts = true -> bsl_then_star ts = false ->
+Lemma inv_init tc ts : forallb StageDoc.tok_ok ts = true -> bsl_then_star ts = false ->
   forall e2 bad2, name_step (set_ltype entry0 tc) (fvalue ts) = (e2, bad2) ->
   Inv tc (fvalue ts) (has_star ts) (doc_name ts) dexp0 e2 bad2.
 Proof.
   intros Hok Hb e2 bad2 Hn. pose proof (name_spec ts (set_ltype entry0 tc) Hok Hb) as Hs.
   rewrite Hn in Hs. unfold Inv. destruct (doc_name ts).
-  - injection Hs as <- <-. split; [reflexivity|]. intros _. split; [intros E; exact E|].
+  - injection Hs as -> ->. split; [reflexivity|]. intros _. split; [intros E; exact E|].
     unfold Mrel. cbn. repeat split; reflexivity.
   - cbn [snd] in Hs. subst bad2. split; discriminate.
   - contradiction.
@@ -1084,7 +1084,7 @@ Proof.
   rewrite lof_cons2, (type_of_doc ty Em).
   set (tc := doc_type_code ty). set (nm := fvalue (f_toks fn)). set (nw := has_star (f_toks fn)).
   destruct (name_step (set_ltype entry0 tc) nm) as [e2 bad2] eqn:En.
-  pose proof (inv_init tc ty (f_toks fn) Hfn Hbts e2 bad2 En) as HI0.
+  pose proof (inv_init tc (f_toks fn) Hfn Hbts e2 bad2 En) as HI0.
   fold nm nw in HI0. cbn [orb].
   destruct (fold_left (doc_opt_field ty nw) opts (doc_name (f_toks fn), dexp0)) as [st x] eqn:Ed.
   destruct (fold_left (opt_step ty) (map (fun f => fvalue (f_toks f)) opts) (e2, bad2)) as [e3 bad3] eqn:Ef.
